@@ -1,5 +1,6 @@
 import DS.Driver.VMD
 import DS.Model.RefEval
+import DS.Model.Frag
 namespace DS.Driver
 open DS.VM DS.Ref
 
@@ -113,6 +114,45 @@ def refLine (toks : List String) : String :=
              " | ".intercalate outs ++ " | vars=" ++ canonAttrsOf g.heap attrs
            | _, _ => "bad-ast")
         | _ => "bad-ast")
+     | _ => "bad-ast")
+  | _ => "bad-op"
+
+
+partial def toF : SExp → Option DS.Frag.F
+  | .list [.atom "i", .atom n] => n.toInt?.map .lit
+  | .list [.atom "bin", .atom op, a, b] => do pure (.bin (← parseBin op) (← toF a) (← toF b))
+  | .list [.atom "neg", a] => (toF a).map .neg
+  | .list [.atom "tern", c, a, b] => do pure (.tern (← toF c) (← toF a) (← toF b))
+  | .list [.atom "or", a, b] => do pure (.lor (← toF a) (← toF b))
+  | .list [.atom "and", a, b] => do pure (.land (← toF a) (← toF b))
+  | _ => none
+
+def binTok : BinOp → String
+  | .add => "add" | .sub => "sub" | .mul => "mul" | .div => "div" | .mod => "mod" | .pow => "pow"
+  | .nullCoalescing => "nullCoalescing" | .lt => "comp.lt" | .le => "comp.le" | .eq => "comp.eq" | .ne => "comp.ne"
+  | .ge => "comp.ge" | .gt => "comp.gt" | .bitAnd => "&" | .bitOr => "|"
+
+def instrTok : Instr → String
+  | .pushInt i => s!"push.int=i{i}"
+  | .bin op => binTok op
+  | .neg => "neg"
+  | .jne (some o) => s!"jne=i{o}"
+  | .jmp (some o) => s!"jmp=i{o}"
+  | .jeDup (some o) => s!"je.dup=i{o}"
+  | .pushLast => "push.last"
+  | .logicAnd => "and"
+  | .halt => "halt"
+  | _ => "?"
+
+/-- fragc ( tree ) : the fragment compiler's output in the bytecode-dump token format -/
+def fragcLine (toks : List String) : String :=
+  match toks with
+  | "fragc" :: rest =>
+    (match parseSExp rest with
+     | some (sx, []) =>
+       (match toF sx with
+        | some e => "[ " ++ " ".intercalate ((DS.Frag.compile e ++ [Instr.halt]).map instrTok) ++ " ]"
+        | none => "not-in-fragment")
      | _ => "bad-ast")
   | _ => "bad-op"
 
